@@ -181,11 +181,11 @@ static void DiscardArgs(void) {
         }
         Eaten = (*p2 == '\0');
         *p2   = '\0';
-        strmov(OpPart.str.p_str, p);
+        as_dynstr_copy_c_str(&OpPart.str, p);
         NLS_UpString(OpPart.str.p_str);
         if (Eaten) {
             for (z = 1; z < ArgCnt; z++) {
-                strmov(ArgStr[z].str.p_str, ArgStr[z + 1].str.p_str);
+                as_dynstr_copy(&ArgStr[z].str, &ArgStr[z + 1].str);
             }
             ArgCnt--;
         } else {
